@@ -24,7 +24,7 @@ Feed(o) ==
     [] o.ev = "stored" -> PStored(o.set)
     [] o.ev = "list"   -> PList(o.s, o.f, o.res, o.types, o.anns, o.err)
     [] o.ev = "tag"    -> PTag(o.s, o.res, o.types, o.anns)
-    [] o.ev = "fetch"  -> PFetch(IF o.got = o.asked THEN "same" ELSE "other")
+    [] o.ev = "fetch"  -> PFetch(IF o.got = o.asked THEN "same" ELSE "other", "same")
     [] OTHER           -> PNote
 
 MInit == /\ Init
